@@ -140,6 +140,9 @@ def run(tier):
     rep.states += len(aj)
     rep.need("adopted_while_closed")
     livelife.explore_live(rep, ENABLED, tier)
+    from props import betdaqlife
+
+    betdaqlife.explore_betdaq(rep, ENABLED, tier)  # the same oracles over the Betdaq execution / polling path
     rep.engine = "E1 simx + E2 livex"
     return rep.finish()
 
@@ -151,6 +154,10 @@ def replay(rep):
         for d in r["violations"]:
             print(d["key"], d["detail"])
         return 1 if r["violations"] else 0
+    if "betdaq" in c:
+        from props import betdaqlife
+
+        return betdaqlife.replay_betdaq(c, ENABLED)
     if "path" in c:
         return livelife.replay_live(c, ENABLED)
     r = L.run_history(c["history"], ENABLED, c.get("cfg"))
